@@ -5,6 +5,7 @@
 mod c01;
 mod c04;
 mod c06;
+mod c08;
 mod c09;
 mod c10;
 mod c11;
@@ -37,6 +38,7 @@ fn main() {
         "C01" => c01::replay(&cases, &mut rep),
         "C04" => c04::replay(&cases, &mut rep),
         "C06" => c06::replay(&cases, &mut rep),
+        "C08" => c08::replay(&cases, &mut rep),
         "C09" => c09::replay(&cases, &mut rep),
         "C10" => c10::replay(&cases, &mut rep),
         "C11" => c11::replay(&cases, &mut rep),
